@@ -481,8 +481,38 @@ def run(ctx: Any, prog: Program) -> None:
     ctxt = re.sub(r'<\w+>', '', ' '.join(l.text for l in px.func('scale_down').body)).replace(' ', '')
     ok = all(t.replace(' ', '') in ctxt for t in terms) and ')//4)' in ctxt
     ctx.shape('C15.F5', ok, py, sd, 'Cython scale_down must average the same four samples', func='scale_down', text='bilinear = mean of four (Cython)', file=px.relpath)
-    ok = 'for mipmap in range(1, self.mipmap_count)' in ast.unparse(vm['compute_mipmaps']) and 'self._frames[frame_num, depth_side, mipmap - 1]' in ast.unparse(vm['compute_mipmaps'])
-    ctx.shape('C15.F5', ok, vtf, vm['compute_mipmaps'], 'each cleared mipmap is regenerated from the next larger level', func='VTF.compute_mipmaps', text='mipmap chain')
+    # mipmap chain: level k is rebuilt from level k-1, so the levels of one image must be visited in increasing order
+    cm = vm['compute_mipmaps']
+    resc = [c for c in ast.walk(cm) if isinstance(c, ast.Call) and isinstance(c.func, ast.Attribute) and c.func.attr == 'rescale_from' and c.args
+            and isinstance(c.args[0], ast.Subscript) and dotted(c.args[0].value) == 'self._frames']
+    if len(resc) != 1:
+        ctx.shape('C15.F5', False, vtf, cm, 'one rescale_from(parent) call expected in compute_mipmaps', func='VTF.compute_mipmaps', text='mipmap chain')
+    else:
+        parent = resc[0].args[0]
+        lvl = None
+        if isinstance(parent, ast.Subscript) and dotted(parent.value) == 'self._frames' and isinstance(parent.slice, ast.Tuple) and len(parent.slice.elts) == 3:
+            last = parent.slice.elts[2]
+            if isinstance(last, ast.BinOp) and isinstance(last.op, ast.Sub) and isinstance(last.left, ast.Name) and isinstance(last.right, ast.Constant) and last.right.value == 1:
+                lvl = last.left.id
+        if lvl is None:
+            ctx.shape('C15.F5', False, vtf, resc[0], 'the parent of a rebuilt level is self._frames[frame, side, level - 1]', func='VTF.compute_mipmaps', text='mipmap chain')
+        else:
+            loops = [l for l in ast.walk(cm) if isinstance(l, ast.For) and any(isinstance(x, ast.Name) and x.id == lvl for x in ast.walk(l.target)) and any(resc[0] is x for x in ast.walk(l))]
+            if len(loops) != 1:
+                ctx.shape('C15.F5', False, vtf, cm, f'the loop binding `{lvl}` was not found', func='VTF.compute_mipmaps', text='mipmap chain')
+            else:
+                it = loops[0].iter
+                its = ast.unparse(it)
+                ascending = isinstance(it, ast.Call) and dotted(it.func) == 'range' and len(it.args) >= 1 and not (len(it.args) == 3) and ast.unparse(it.args[0]) in ('1', '0')
+                sorted_table = isinstance(it, ast.Call) and dotted(it.func) == 'sorted' and 'self._frames' in its and not any(k.arg == 'reverse' for k in it.keywords)
+                table_order = 'self._frames' in its and not sorted_table
+                if ascending or sorted_table:
+                    ctx.check('C15.F5', True, vtf, loops[0], 'levels visited in increasing order', func='VTF.compute_mipmaps', text='mipmap chain')
+                elif table_order:
+                    ctx.check('C15.F5', False, vtf, loops[0], f'compute_mipmaps visits the levels in the order of the frame table (`{its[:50]}`), which is whatever order the frames were inserted in: VTF.read() inserts the '
+                              'smallest level first, so a level is rebuilt from a parent that is still blank', func='VTF.compute_mipmaps', text='mipmap chain')
+                else:
+                    ctx.shape('C15.F5', False, vtf, loops[0], f'level iteration `{its[:60]}` is not an enumerated increasing order', func='VTF.compute_mipmaps', text='mipmap chain')
     # ---- F6 --------------------------------------------------------------------------------------------------
     sm = vtf.methods('SheetSequence')
     fr_, mk = sm['from_resource'], sm['make_data']
@@ -598,6 +628,7 @@ def accepted_region(test: ast.AST) -> Dict[Tuple[str, str], str]:
 
 
 MUTANTS: List[Dict[str, Any]] = [
+    {'id': 'mipmaps_rebuilt_in_table_order', 'file': 'vtf.py', 'find': "                for mipmap in range(1, self.mipmap_count):\n                    frm = self._frames[frame_num, depth_side, mipmap]\n                    if frm._data is None:", 'replace': "                for (f2, d2, mipmap), frm in self._frames.items():\n                    if f2 != frame_num or d2 != depth_side or mipmap == 0:\n                        continue\n                    if frm._data is None:", 'expect': 'C15.F5'},
     # repaired variants: the known findings must disappear (shows the rule describes the defect, not the code's style)
     {'id': 'repair_mipmap_count', 'file': 'vtf.py', 'find': "        self.mipmap_count = mip_count\n", 'replace': "        self.mipmap_count = mip_count + 1\n", 'expect': None, 'repairs': ['VTF.__init__']},
     {'id': 'repair_side_sequence', 'file': 'vtf.py', 'find': "        depth_seq = self._depth_range()\n\n        if version_minor >= 3:\n            deferred.set_data('high_res'", 'replace': "        depth_seq = self._depth_range(version_minor)\n\n        if version_minor >= 3:\n            deferred.set_data('high_res'",
